@@ -453,3 +453,78 @@ var (
 	rxOkMaybe       = core.RxName(`(?i)and|article|body|column|content|main|shadow`)
 	unlikelyRoleSet = `set‹"alert","alertdialog","complementary","dialog","menu","menubar","navigation"›`
 )
+
+// substituteFlagParams rewrites the decision paths of a helper whose boolean parameters are
+// precomputed facts: when every call of the helper in caller (helpers expanded) passes, for such
+// a parameter, a condition over the helper's other arguments, the literal on the parameter is
+// replaced by the literal on that condition (in the helper's own parameter names). A flag that
+// different callers compute differently is left alone.
+func substituteFlagParams(p *core.Program, helper, caller *ssa.Function, paths []core.DecisionPath, atoms map[string]bool) ([]core.DecisionPath, map[string]bool) {
+	orig := p.Original(helper)
+	c := core.NewCanon(p)
+	type sub struct {
+		atom string
+		same bool // the flag is true exactly when the atom is true
+	}
+	subs := map[string]sub{}
+	calls := core.Calls(caller, func(ci ssa.CallInstruction) bool {
+		callee := ci.Common().StaticCallee()
+		return callee != nil && p.Original(callee) == orig
+	})
+	for j, pa := range orig.Params {
+		if bt, ok := pa.Type().Underlying().(*types.Basic); !ok || bt.Kind() != types.Bool || len(calls) == 0 {
+			continue
+		}
+		var found *sub
+		okAll := true
+		for _, call := range calls {
+			args := call.Common().Args
+			if j >= len(args) {
+				okAll = false
+				break
+			}
+			atom, whenTrue := c.CondAtom(args[j])
+			// into the helper's parameter names
+			for i, a := range args {
+				if i != j {
+					if s := c.Of(a); len(s) > 1 {
+						atom = strings.ReplaceAll(atom, s, fmt.Sprintf("$%d", i))
+					}
+				}
+			}
+			cur := sub{atom, whenTrue}
+			if found != nil && *found != cur {
+				okAll = false
+			}
+			found = &cur
+		}
+		if okAll && found != nil {
+			subs[fmt.Sprintf("$%d", j)] = *found
+		}
+	}
+	if len(subs) == 0 {
+		return paths, atoms
+	}
+	newAtoms := map[string]bool{}
+	for a := range atoms {
+		if s, ok := subs[a]; ok {
+			newAtoms[s.atom] = true
+		} else {
+			newAtoms[a] = true
+		}
+	}
+	out := make([]core.DecisionPath, len(paths))
+	for i, pa := range paths {
+		np := pa
+		np.Lits = nil
+		for _, l := range pa.Lits {
+			if s, ok := subs[l.Atom]; ok {
+				np.Lits = append(np.Lits, core.Lit{Atom: s.atom, Val: l.Val == s.same})
+			} else {
+				np.Lits = append(np.Lits, l)
+			}
+		}
+		out[i] = np
+	}
+	return out, newAtoms
+}
